@@ -8,8 +8,9 @@ import sys
 import tempfile
 import time
 
-V = "/verif"
-REPO = "/repo"
+# VERIF_HOME / VERIF_REPO let a snapshot of this directory decide another checkout (used only by refcheck.py)
+V = os.environ.get("VERIF_HOME", "/verif")
+REPO = os.environ.get("VERIF_REPO", "/repo")
 BUILD = V + "/.build"
 LEAN = V + "/lean"
 WIRE = BUILD + "/wire"
